@@ -20,6 +20,7 @@ import (
 	"strings"
 	"sync"
 	"sync/atomic"
+	"syscall"
 	"time"
 
 	"github.com/Shopify/sarama"
@@ -833,6 +834,7 @@ func genScript(r *hlib.Rand, callers, per int) []string {
 // that were running at that moment are reported as oracle failures with their case lines as the replay.
 func supervise() int {
 	cmd := exec.Command(os.Args[0], os.Args[1:]...)
+	cmd.SysProcAttr = &syscall.SysProcAttr{Pdeathsig: syscall.SIGKILL}
 	cmd.Env = append(os.Environ(), "C14_CHILD=1")
 	var stderr bytes.Buffer
 	cmd.Stdout, cmd.Stderr = os.Stdout, &stderr
